@@ -115,9 +115,10 @@ def discharge(pc, goal, timeout_ms=10000):
     return "unknown", bk, dt + dt2, None
 
 
-def verify_function(eng, qualname, contract, make_args, max_paths=4000):
+def verify_function(eng, qualname, contract, make_args, max_paths=4000, fork_slice=None):
     """make_args(eng, path, fork) -> env for one fork; forks = contract['forks'] (list of dicts)"""
     fi = eng.index.func(qualname)
+    max_paths = contract.get("max_paths", max_paths)
     res = Result(qualname)
     res.source_hash = fi.source_hash
     raises = contract.get("raises", {})
@@ -125,9 +126,12 @@ def verify_function(eng, qualname, contract, make_args, max_paths=4000):
         res.covers[e] = 0
     forks = contract["forks"](eng) if callable(contract.get("forks")) else contract.get("forks", [{}])
     allowed_frame = set(contract.get("frame", []))
+    if fork_slice is not None:
+        forks = list(forks)[fork_slice[0]::fork_slice[1]]      # this process takes every n-th argument-kind fork
     if True:
         for fork in forks:
             res.forks += 1
+            eng.feas_cache = {}
             stack = [[]]
             while stack:
                 decisions = stack.pop()
@@ -226,9 +230,9 @@ def verify_function(eng, qualname, contract, make_args, max_paths=4000):
                     if owner and f"{owner[0]}.{field}" not in allowed_frame:
                         res.add(f"{qualname} [{tag}] frame: no store to {owner[0]}.{field}", "failed", "frame-scan", 0.0,
                                 kind="frame", fork=tag)
-    # covers
+    # covers (for a slice of the forks they are evaluated after the slices are merged: vcrun)
     for k, n in res.covers.items():
-        if n == 0 and res.limitation is None and not contract.get("cover_optional", {}).get(k):
+        if fork_slice is None and n == 0 and res.limitation is None and not contract.get("cover_optional", {}).get(k):
             res.add(f"{qualname} cover: {k} exit is reachable", "failed", "cover", 0.0, kind="cover")
     return res
 
